@@ -29,10 +29,26 @@ var (
 
 func fixedNow() time.Time { return testdb.FixedNow }
 
+// capQ/capN: statements built by the Create pipeline of the dry handles (a
+// batched create runs every batch on a statement of its own, the handle it
+// returns exposes none of them).
+var capQ, capN []captured
+
 func dry() (*gorm.DB, *gorm.DB) {
 	dryOnce.Do(func() {
-		dryQ = testdb.Dry(false, gorm.Config{NowFunc: fixedNow})
-		dryN = testdb.Dry(true, gorm.Config{NowFunc: fixedNow})
+		dryQ = testdb.Dry(false, gorm.Config{NowFunc: fixedNow, SkipDefaultTransaction: true}) // no connection: a multi-batch create must not try to begin
+		dryN = testdb.Dry(true, gorm.Config{NowFunc: fixedNow, SkipDefaultTransaction: true})
+		for _, h := range []struct {
+			db  *gorm.DB
+			out *[]captured
+		}{{dryQ, &capQ}, {dryN, &capN}} {
+			out := h.out
+			if err := h.db.Callback().Create().After("gorm:create").Register("verif:capture", func(tx *gorm.DB) {
+				*out = append(*out, captured{sql: tx.Statement.SQL.String(), vars: append([]interface{}(nil), tx.Statement.Vars...)})
+			}); err != nil {
+				panic(err)
+			}
+		}
 	})
 	return dryQ, dryN
 }
@@ -65,55 +81,83 @@ func allowedError(c *chains.Chain, err error, dryRun bool) bool {
 	return false
 }
 
+// batchHandle: Config.CreateBatchSize is a property of the handle.
+func batchHandle(db *gorm.DB, c *chains.Chain) *gorm.DB {
+	if n := c.ConfigBatchSize(); n > 0 {
+		return db.Session(&gorm.Session{CreateBatchSize: n})
+	}
+	return db
+}
+
 func checkDry(rt *rapid.T, c *chains.Chain) {
 	desc := c.String()
 	evid.Journal(desc)
 	q, n := dry()
-	txQ := c.Apply(q)
-	txN := c.Apply(n)
-	sqlQ, varsQ := txQ.Statement.SQL.String(), chains.NormAll(txQ.Statement.Vars)
-	sqlN, varsN := txN.Statement.SQL.String(), chains.NormAll(txN.Statement.Vars)
+	capQ, capN = nil, nil
+	txQ := c.Apply(batchHandle(q, c))
+	txN := c.Apply(batchHandle(n, c))
+	plan := c.Plan(chains.Mode{Now: fixedNow()})
+	// the statements the dry run exposes, and the prediction for each
+	stQ := []captured{{sql: txQ.Statement.SQL.String(), vars: txQ.Statement.Vars}}
+	stN := []captured{{sql: txN.Statement.SQL.String(), vars: txN.Statement.Vars}}
+	wants := plan.Dry[len(plan.Dry)-1:]
+	if plan.Hidden {
+		stQ, stN, wants = capQ, capN, plan.Dry
+	}
 	info := c.Describe(false)
-	nt := len(varsQ) >= 2 && len(info.Hazards) > 0
+	nVars, first := 0, sample{Chain: desc}
+	for i, st := range stN {
+		nVars += len(st.vars)
+		if i == 0 {
+			first.SQL, first.Vars = st.sql, chains.Render(chains.NormAll(st.vars))
+		}
+	}
+	nt := nVars >= 2 && len(info.Hazards) > 0
 	classes := chains.SortedKeys(info.Classes)
 	for _, h := range chains.SortedKeys(info.Hazards) {
 		classes = append(classes, "hazard:"+h)
 	}
-	evid.Case(desc, nt, sample{Chain: desc, SQL: sqlN, Vars: chains.Render(varsN)}, classes...)
+	evid.Case(desc, nt, first, classes...)
 
-	fail := func(format string, a ...interface{}) {
-		rt.Fatalf("C01 violated: %s\n  case: %s\n  '?' : %s\n        %s\n  '$n': %s\n        %s", fmt.Sprintf(format, a...), desc, sqlQ, chains.Render(varsQ), sqlN, chains.Render(varsN))
-	}
 	if !allowedError(c, txQ.Error, true) || !allowedError(c, txN.Error, true) {
-		fail("building the statement failed: %v / %v", txQ.Error, txN.Error)
+		rt.Fatalf("C01 violated: building the statement failed: %v / %v\n  case: %s", txQ.Error, txN.Error, desc)
 	}
-	if sqlQ == "" || sqlN == "" {
-		fail("no statement was built")
+	if len(stQ) != len(wants) || len(stN) != len(wants) {
+		rt.Fatalf("C01 violated: the chain builds %d statement(s), the dry run built %d ('?') / %d ('$n')\n  case: %s", len(wants), len(stQ), len(stN), desc)
 	}
-	// (a) structure
-	if msg := chains.CheckNumbered(sqlN, len(varsN)); msg != "" {
-		fail("numbered dialect: %s", msg)
-	}
-	if k := chains.CountQ(sqlQ); k != len(varsQ) {
-		fail("positional dialect: %d placeholders for %d bound values", k, len(varsQ))
-	}
-	if chains.Unnumber(sqlN) != sqlQ {
-		fail("the two dialects disagree beyond placeholder spelling")
-	}
-	if i := chains.SameAll(varsQ, varsN); i >= 0 {
-		fail("the two dialects bind different values (first difference at %d)", i)
-	}
-	// (b) no leak
-	if l := chains.Leaked(sqlQ, info.Tokens); len(l) > 0 {
-		fail("argument sentinel(s) %q occur in the statement text", l)
-	}
-	if l := chains.Leaked(sqlN, info.Tokens); len(l) > 0 {
-		fail("argument sentinel(s) %q occur in the statement text ($n)", l)
-	}
-	// (c) values and order
-	want := c.Expected(chains.Mode{Now: fixedNow()})
-	if i := chains.SameAll(want, varsQ); i >= 0 {
-		fail("bound values differ from the values the chain passes, in call order (first difference at index %d)\n  expected: %s", i, chains.Render(want))
+	for i := range wants {
+		sqlQ, varsQ := stQ[i].sql, chains.NormAll(stQ[i].vars)
+		sqlN, varsN := stN[i].sql, chains.NormAll(stN[i].vars)
+		fail := func(format string, a ...interface{}) {
+			rt.Fatalf("C01 violated: %s\n  case: %s\n  statement %d of %d\n  '?' : %s\n        %s\n  '$n': %s\n        %s", fmt.Sprintf(format, a...), desc, i+1, len(wants), sqlQ, chains.Render(varsQ), sqlN, chains.Render(varsN))
+		}
+		if sqlQ == "" || sqlN == "" {
+			fail("no statement was built")
+		}
+		// (a) structure
+		if msg := chains.CheckNumbered(sqlN, len(varsN)); msg != "" {
+			fail("numbered dialect: %s", msg)
+		}
+		if k := chains.CountQ(sqlQ); k != len(varsQ) {
+			fail("positional dialect: %d placeholders for %d bound values", k, len(varsQ))
+		}
+		if chains.Unnumber(sqlN) != sqlQ {
+			fail("the two dialects disagree beyond placeholder spelling")
+		}
+		if j := chains.SameAll(varsQ, varsN); j >= 0 {
+			fail("the two dialects bind different values (first difference at %d)", j)
+		}
+		// (b) no leak
+		if l := chains.Leaked(sqlQ, info.Tokens); len(l) > 0 {
+			fail("argument sentinel(s) %q occur in the statement text", l)
+		}
+		if l := chains.Leaked(sqlN, info.Tokens); len(l) > 0 {
+			fail("argument sentinel(s) %q occur in the statement text ($n)", l)
+		}
+		// (c) values and order
+		if j := chains.SameAll(wants[i], varsQ); j >= 0 {
+			fail("bound values differ from the values the chain passes, in call order (first difference at index %d)\n  expected: %s", j, chains.Render(wants[i]))
+		}
 	}
 }
 
@@ -161,7 +205,7 @@ func checkExec(rt *rapid.T, c *chains.Chain) {
 	// Create from maps is run on the dialect configuration without RETURNING: with it gorm
 	// fails (or panics) while scanning the returned keys back into []map values after the
 	// statement was sent, which is not this property's subject (see the report).
-	d := testdb.Open(testdb.Options{Config: gorm.Config{NowFunc: fixedNow}, NoReturning: c.CreatesFromMap()})
+	d := testdb.Open(testdb.Options{Config: gorm.Config{NowFunc: fixedNow, CreateBatchSize: c.ConfigBatchSize()}, NoReturning: c.CreatesFromMap()})
 	defer d.Close()
 	if err := chains.Prepare(d.SQL); err != nil {
 		rt.Fatalf("harness: cannot prepare the database: %v", err)
@@ -174,11 +218,12 @@ func checkExec(rt *rapid.T, c *chains.Chain) {
 	rt.Logf("case: %s", desc)
 	tx := c.Apply(d.DB)
 	stmts := d.Rec.Statements()
+	plan := c.Plan(chains.Mode{LiteralLimit: true, Now: fixedNow()})
 
 	info := c.Describe(true)
 	nArgs := 0
-	if len(stmts) > 0 {
-		nArgs = len(stmts[0].Args)
+	for _, st := range stmts {
+		nArgs += len(st.Args)
 	}
 	nt := nArgs >= 2 && len(info.Hazards) > 0
 	classes := chains.SortedKeys(info.Classes)
@@ -207,35 +252,38 @@ func checkExec(rt *rapid.T, c *chains.Chain) {
 	if !allowedError(c, tx.Error, false) {
 		fail("the statement failed: %v", tx.Error)
 	}
-	if len(stmts) != 1 || len(caps) != 1 {
-		fail("expected exactly one statement, the driver saw %d and gorm built %d", len(stmts), len(caps))
+	if len(stmts) != len(caps) || len(stmts) < len(plan.Real) || len(stmts) > len(plan.Real)+1 || (len(stmts) > len(plan.Real) && !plan.ExtraReal) {
+		fail("expected %d statement(s), the driver saw %d and gorm built %d", len(plan.Real), len(stmts), len(caps))
 	}
-	ev, cp := stmts[0], caps[0]
-	if ev.Err != nil {
-		fail("the database rejected the statement: %v", ev.Err)
-	}
-	if ev.Text != cp.sql {
-		fail("the driver received a different text than Statement.SQL: %q", cp.sql)
-	}
-	if k := chains.CountQ(ev.Text); k != len(ev.Args) {
-		fail("%d placeholders for %d driver arguments", k, len(ev.Args))
-	}
-	args := make([]interface{}, len(ev.Args))
-	for i, a := range ev.Args {
-		if a.Ordinal != i+1 || a.Name != "" {
-			fail("argument %d has ordinal %d name %q", i, a.Ordinal, a.Name)
+	for k, ev := range stmts {
+		cp := caps[k]
+		if ev.Err != nil {
+			fail("the database rejected statement %d: %v", k+1, ev.Err)
 		}
-		args[i] = chains.Norm(a.Value)
-	}
-	if i := chains.SameAll(chains.NormAll(cp.vars), args); i >= 0 {
-		fail("driver arguments differ from Statement.Vars at %d: vars %s", i, chains.Render(chains.NormAll(cp.vars)))
-	}
-	if l := chains.Leaked(ev.Text, info.Tokens); len(l) > 0 {
-		fail("argument sentinel(s) %q occur in the text sent to the driver", l)
-	}
-	want := c.Expected(chains.Mode{LiteralLimit: true, Now: fixedNow()})
-	if i := chains.SameAll(want, args); i >= 0 {
-		fail("driver arguments differ from the values the chain passes (first difference at %d)\n  expected: %s", i, chains.Render(want))
+		if ev.Text != cp.sql {
+			fail("the driver received a different text than Statement.SQL: %q", cp.sql)
+		}
+		if n := chains.CountQ(ev.Text); n != len(ev.Args) {
+			fail("statement %d: %d placeholders for %d driver arguments", k+1, n, len(ev.Args))
+		}
+		args := make([]interface{}, len(ev.Args))
+		for i, a := range ev.Args {
+			if a.Ordinal != i+1 || a.Name != "" {
+				fail("statement %d: argument %d has ordinal %d name %q", k+1, i, a.Ordinal, a.Name)
+			}
+			args[i] = chains.Norm(a.Value)
+		}
+		if i := chains.SameAll(chains.NormAll(cp.vars), args); i >= 0 {
+			fail("statement %d: driver arguments differ from Statement.Vars at %d: vars %s", k+1, i, chains.Render(chains.NormAll(cp.vars)))
+		}
+		if l := chains.Leaked(ev.Text, info.Tokens); len(l) > 0 {
+			fail("argument sentinel(s) %q occur in the text sent to the driver", l)
+		}
+		if k < len(plan.Real) {
+			if i := chains.SameAll(plan.Real[k], args); i >= 0 {
+				fail("statement %d: driver arguments differ from the values the chain passes (first difference at %d)\n  expected: %s", k+1, i, chains.Render(plan.Real[k]))
+			}
+		}
 	}
 }
 
